@@ -174,6 +174,10 @@ def generate(seed, tier):
             ops.append({'op': 'sub', 'name': name, 'parent': r.choice(pool)})
             (lsubs if side == 'L' else dsubs).append(name)
             continue
+        if p_yobj and x < p_sub + p_yobj and r.random() < 0.25:
+            # the list of loaders a YAMLObject class (or YAMLObject itself) sees is extended in place
+            ops.append({'op': 'yext', 'target': r.choice([None, None] + yobjs), 'add': r.choice([c for c in LOADERS + lsubs * 2 if c not in BASE_ONLY])})
+            continue
         if x < p_sub + p_yobj:
             name = 'Y%d' % (len(yobjs) + 1)
             lpool = [c for c in LOADERS + lsubs if c not in BASE_ONLY]
@@ -372,6 +376,8 @@ class Model:
         self.roots = {}          # (kind, owner label) -> table
         self.classes = {}        # name -> {'parent', 'side', 'own': {kind: table|None}, 'root': {kind: owner label}}
         self.yobj = {}           # name -> {'loaders': [...], 'dumper': name}
+        # YAMLObject.yaml_loader is ONE list object that every YAMLObject subclass without a yaml_loader of its own sees
+        self.yobj_default = ['Loader', 'FullLoader', 'UnsafeLoader']
         self.targeted = set()
         for name, cls in w['cls'].items():
             side = w['side'][name]
@@ -573,6 +579,11 @@ def valid(model, op):
         if du is not None and cl[du]['side'] != 'D':
             return False
         return key_ok(model, op)
+    if op['op'] == 'yext':
+        t = op['target']
+        if t is not None and (t not in model.yobj or not model.yobj[t].get('aslist') or 'BROKEN' in model.yobj[t]['loaders']):
+            return False
+        return op['add'] in cl and cl[op['add']]['side'] == 'L' and not base_only(model, op['add'])
     if op['op'] == 'yobj':
         if op['name'] in model.yobj or (op['base'] is not None and op['base'] not in model.yobj):
             return False
@@ -623,6 +634,17 @@ def step(w, model, op, idx):
         w['cls'][op['name']] = type(op['name'], (w['cls'][op['parent']],), {})
         w['side'][op['name']] = w['side'][op['parent']]
         return pred, 'ok', [op['name']]
+    if op['op'] == 'yext':
+        # `SomeYAMLObjectClass.yaml_loader += [cls]`: the list object the class sees (its own or an inherited one,
+        # YAMLObject's included) is extended in place.  Nothing is registered by this; later YAMLObject subclasses
+        # that see this list register on the new entry too - the module-level helpers must not.
+        lst = model.yobj_default if op['target'] is None else model.yobj[op['target']]['loaders']
+        lst.append(op['add'])
+        ycls = yaml.YAMLObject if op['target'] is None else w['yobj'][op['target']]
+
+        def extend():
+            ycls.yaml_loader += [w['cls'][op['add']]]
+        return 'ok', outcome_of(extend), []
     if op['op'] == 'add':
         args = real_args(w, op, idx)
         pred = model.add(op['target'], kind, op, 'V:None' if op.get('value_none') else 'H:%s:%d' % (kind, idx))
@@ -649,7 +671,7 @@ def step(w, model, op, idx):
     ns = {'__repr__': lambda self: '%s(%r)' % (type(self).__name__, sorted(vars(self).items()))}
     if op['tag'] is not None:
         ns['yaml_tag'] = op['tag']
-    minfo = dict(model.yobj[base]) if base is not None else {'loaders': ['Loader', 'FullLoader', 'UnsafeLoader'], 'dumper': 'Dumper', 'aslist': True}
+    minfo = dict(model.yobj[base]) if base is not None else {'loaders': model.yobj_default, 'dumper': 'Dumper', 'aslist': True}
     lo = op['loaders']
     if lo not in ('default', 'inherit'):
         if isinstance(lo, str):
